@@ -81,6 +81,7 @@ def build(desc):
         "p_inplay": 0.5,
         "depth": (2, 5),
         "p_bsp": 0.9,
+        "handicaps": "lines" if (mt == "WIN" and kind == "win" and rng.random() < 0.3) else False,
     }
     d = G.Director(rng, mid, params)
     mf = d.run()
